@@ -450,6 +450,8 @@ func runC04(c *Ctx) {
 		}
 		c.check(okP, "C04.v4.parse", f, "reverseIPv4 is the permutation k -> 3-k", nil, perm)
 	}
+	// ---- the round trip, end to end ----
+	c04RoundTripExact(c)
 	// ---- R4 encoder ----
 	if f := c.fn("netutil", "IPToReversedAddr"); f != nil && c04EncoderExact(c, f) {
 		// decided exactly (c04enc.go); the structural rules below are the
@@ -1009,6 +1011,10 @@ func runC05(c *Ctx) {
 	// exact decisions first (c05exact.go): where one succeeds, the structural
 	// rules about the same decoder are only its fall-back
 	v4LabelExact(c, "C05") // the octet test behind indexFirstV4Label (ExtractReversedAddr)
+	idxExact := c05IndexExact(c)
+	if len(idxExact) == 2 {
+		c.L.Floor("C05.label-aligned", 1)
+	}
 	v4exact := c05PrefixV4Exact(c)
 	v6exact := c05PrefixV6Exact(c)
 	nSkel := 6
@@ -1169,7 +1175,7 @@ func runC05(c *Ctx) {
 	}
 
 	// ---- scanners test the byte before each candidate label ----
-	if f := c.fn("netutil", "indexFirstV6Label"); f != nil {
+	if f := c.fn("netutil", "indexFirstV6Label"); f != nil && !idxExact["indexFirstV6Label"] {
 		dom := f.Params[0]
 		okB := false
 		core.EachInstr(f, func(in ssa.Instruction) {
@@ -1213,7 +1219,7 @@ func runC05(c *Ctx) {
 		c.check(okB, "C05.label-aligned", f, "a nibble label is accepted only if the byte before it is '.' (domain[curIdx-1])", nil,
 			"otherwise the last character of a longer label is taken for a nibble and the extracted suffix is not label-aligned")
 	}
-	if f := c.fn("netutil", "indexFirstV4Label"); f != nil {
+	if f := c.fn("netutil", "indexFirstV4Label"); f != nil && !idxExact["indexFirstV4Label"] {
 		okB := len(core.CallsTo(f, "strings.LastIndexByte")) == 1 && len(core.CallsTo(f, core.ModPath+"/netutil.isIPv4Label")) == 1
 		c.check(okB, "C05.label-aligned", f, "IPv4 labels are delimited by LastIndexByte('.') and validated by isIPv4Label", nil, "whole labels only")
 		// E1: every text handed to isIPv4Label starts at the beginning of the
